@@ -20,6 +20,8 @@ import (
 	"github.com/pion/stun/v3"
 )
 
+type ctxT = context.Context
+
 type simSock struct {
 	w      *simWorld
 	side   int
